@@ -6,7 +6,7 @@ ALL3 = {"C", "E", "U"}
 
 # one TLC run per line: (label, constants that differ from merge_common.BASE)
 QUICK = [
-    ("merge_all cold/sync", dict(Ops={"merge_all"}, Tabs={"plain", "error"}, Flavours={"cold", "sync"})),
+    ("merge_all cold/sync", dict(Ops={"merge_all"}, Tabs={"plain", "error"}, Flavours={"cold", "sync"}, OTermTimes={2, 3, 5})),
     ("merge(max_concurrent) cold", dict(Ops={"merge_mc"}, MCs={1, 2}, Tabs={"plain", "short"}, Flavours={"cold"})),
     ("mapped operators + raising mappers", dict(Ops={"flat_map", "flat_map_indexed", "concat_map"}, Tabs={"error"}, Flavours={"sync"},
                                                 Faults=True, MaxOuter=2, OTermTimes={2, 3, 5})),
@@ -71,6 +71,7 @@ def run(tier):
         groups += core.group_allowed(det)
     profiles = ("plain", "falsy", "str")
     mc.replay_groups(ck, groups, profiles)
+    mc.binding_selftest(ck, groups)
     ck.nontrivial = sum(1 for g in groups if mc.nontrivial(*g))
     ck.rule = ("outer timelines (<= 3-4 inner arrivals at chosen ticks, ending in completion, error or nothing) x tables of inner "
                "timelines (shape classes: overlapping, finished before the next arrives, erroring, never terminating; thorough: "
